@@ -117,8 +117,8 @@ impl Scenario for C13 {
             let k = if rng.chance(1, 2) { kind_bias } else { rng.below(4) };
             match k {
                 0 => Op::new("add_t", &[t, *rng.pick(&[500.0, 300.0, 5.0, 1e6, 500.0, f64::NAN, f64::INFINITY, 0.0, -1.0]), rng.below(2) as f64, *rng.pick(&[4.0, 4.0, 3.0, 7.0])]),
-                1 => Op::new("add_d", &[t, *rng.pick(&[1.0, 2.0, 0.5, 1.0, 0.0, 0.25, 0.25000000000000017, f64::NAN, f64::INFINITY, 2.0, 1.0, 0.9999999999999999, 1.0000000000000002, 0.9999999999999998]), if rng.chance(1, 4) { 0.0 } else { 1.0 }]),
-                2 => Op::new("add_e", &[t, rng.below(2) as f64, *rng.pick(&[1.0, 1.0, 2.0, 0.0, 0.25, 0.25000000000000017, f64::NAN, f64::INFINITY, 2.0, 1.0, 0.9999999999999999, 1.0000000000000002, 0.9999999999999998])]),
+                1 => Op::new("add_d", &[t, *rng.pick(&[1.0, 2.0, 0.5, 1.0, 0.0, 0.25, 0.25000000000000017, f64::NAN, f64::INFINITY, 2.0, 1.0, 0.9999999999999999, 1.0000000000000002, 0.9999999999999998, 12.0, 16.0, 0.05, 0.02, 40.0, 1e-3]), if rng.chance(1, 4) { 0.0 } else { 1.0 }]),
+                2 => Op::new("add_e", &[t, rng.below(2) as f64, *rng.pick(&[1.0, 1.0, 2.0, 0.0, 0.25, 0.25000000000000017, f64::NAN, f64::INFINITY, 2.0, 1.0, 0.9999999999999999, 1.0000000000000002, 0.9999999999999998, 12.0, 16.0, 0.005, 0.0025, 100.0, 1e-3])]),
                 _ => Op::new("add_s", &[t, rng.below(4) as f64, *rng.pick(&[100.0, 50.0, 100.0, 120.0, -5.0, 44.0, 300.0, 356.0]), *rng.pick(&[0.0, 1.0, 0.0, 1.0, -1.0, 2.0, -2.0, 65538.0, 65536.0, 65535.0])]),
             }
         };
@@ -128,7 +128,8 @@ impl Scenario for C13 {
         // of a sort or search routine.
         if rng.chance(1, 150) {
             p.scen = "bulk-history".into();
-            let n = if rng.chance(1, 4) { 380 + rng.below(320) } else { 60 + rng.below(140) };
+            // (rarely several thousand points: block sizes and thresholds of "large list" code paths)
+            let n = if rng.chance(1, 25) { 4090 + rng.below(200) } else if rng.chance(1, 4) { 380 + rng.below(320) } else { 60 + rng.below(140) };
             let kinds: Vec<usize> = if rng.chance(2, 3) { vec![rng.below(4)] } else { vec![rng.below(4), rng.below(4)] };
             let mut times: Vec<f64> = (0..n).map(|i| i as f64 * 0.5 - 8.0).collect();
             match rng.below(4) {
@@ -386,7 +387,8 @@ impl Scenario for C13 {
             // collection when it holds no NaN-time point
             let has_nan = cp.timing_points.iter().any(|p| p.time.is_nan()) || cp.difficulty_points.iter().any(|p| p.time.is_nan()) || cp.effect_points.iter().any(|p| p.time.is_nan()) || cp.sample_points.iter().any(|p| p.time.is_nan());
             // bulk histories: the full quadratic sweep only now and then, the neighbourhood of the add every time
-            let sparse = plan.ops.len() > 160 && i % 41 != 0 && i + 1 != plan.ops.len();
+            let every = if plan.ops.len() > 1500 { 1531 } else { 41 };
+            let sparse = plan.ops.len() > 160 && i % every != 0 && i + 1 != plan.ops.len();
             if has_nan {
                 check_lookups(&finite(&cp), &m, i, st)?;
             } else {
